@@ -54,7 +54,9 @@ inductive Step where
   | ok (depth vals : Nat)
   | fail (depth vals : Nat)
   /-- the host calls a Gluon function through `Function::call` and the call fails: `call_first`
-      (vm/src/api/function.rs:445-464) returns the error with `?` — no `reset_stack`, nothing is popped -/
+      (vm/src/api/function.rs:445-484) records `(frames.len(), stack.len())` before pushing the function and on
+      `Err` does `reset_stack(level)` + `pop_many(left_over)` — the same error path as `call_thunk_top`.
+      (Before /repo dd1aca2 the error was propagated with `?`: nothing reset, see `stepWithOldHost`.) -/
   | hostFail (depth vals : Nat)
   deriving Repr
 
@@ -63,7 +65,15 @@ def runOps (depth vals : Nat) : List Op := .push vals :: List.replicate depth (.
 def stepWith (reset : Nat → Nat → Stack → Stack) (s : Stack) : Step → Stack
   | .ok _ _ => s
   | .fail d v => reset s.frames.length s.values (s.run (runOps d v))
+  | .hostFail d v => reset s.frames.length s.values (s.run (runOps d v))
+
+/-- Old rule (before dd1aca2): a failed host call of a Gluon function was not unwound at all. -/
+def stepWithOldHost (reset : Nat → Nat → Stack → Stack) (s : Stack) : Step → Stack
   | .hostFail d v => s.run (runOps d v)
+  | st => stepWith reset s st
+
+def runHistoryOldHost (reset : Nat → Nat → Stack → Stack) (steps : List Step) (s : Stack) : Stack :=
+  steps.foldl (stepWithOldHost reset) s
 
 def runHistory (reset : Nat → Nat → Stack → Stack) (steps : List Step) (s : Stack) : Stack :=
   steps.foldl (stepWith reset) s
